@@ -151,6 +151,15 @@ Next == (\E v \in Values \cup {Absent} : Assign(v)) \/ Serialize \/ Parse
 
 Spec == Init /\ [][Next]_vars
 
+(* --- presence lattice of a concrete type ------------------------------------ *)
+\* For a type with n fields the plans above (NSlots slots, field j -> slot digit) give every pair of
+\* fields every pair of values, but not every *subset* of present fields.  Which optional fields are
+\* present decides what is written first inside an element, so the driver also builds, per type,
+\* the bottom, the atoms, the co-atoms and the top of the presence lattice of its n fields
+\* (2n + 2 subsets), each with plain and with markup-bearing values:
+Lattice(n) == {{}} \cup {{i} : i \in 1..n} \cup {(1..n) \ {i} : i \in 1..n} \cup {1..n}
+LatticePlan(n, S, c) == [i \in 1..n |-> IF i \in S THEN <<c>> ELSE Absent]
+
 (* --- properties (C01) ------------------------------------------------------ *)
 \* written over observable quantities so that CodecTrace evaluates the same
 \* predicates on what the implementation reported
